@@ -91,6 +91,13 @@ func (h *killedHandler) cleanupIfNotRestarting() {
 	h.ctx.EventStream().UnsubscribeAll(h.ctx)
 	h.ctx.system.removeActorContext(h.ctx)
 
+	// 通知事件流。必须先于通知父节点：父节点收到 OnKilled 后可能立即完成自身的终止并发布其 ActorKilledEvent，
+	// 若此处后发布，则祖先会先于后代被报告为已终止。
+	h.ctx.EventStream().Publish(h.ctx, ves.ActorKilledEvent{
+		ActorRef: h.ctx.ref,
+		Type:     reflect.TypeOf(h.ctx.actor),
+	})
+
 	// 通知所有监听者
 	for _, watcher := range h.ctx.watchers {
 		h.ctx.tell(true, watcher, h.selfKilledMessage)
@@ -100,12 +107,6 @@ func (h *killedHandler) cleanupIfNotRestarting() {
 	if h.ctx.parent != nil {
 		h.ctx.tell(true, h.ctx.parent, h.selfKilledMessage)
 	}
-
-	// 通知事件流
-	h.ctx.EventStream().Publish(h.ctx, ves.ActorKilledEvent{
-		ActorRef: h.ctx.ref,
-		Type:     reflect.TypeOf(h.ctx.actor),
-	})
 
 	// 因故障被挂起（failed / 监管暂停指令）后被终止的 Actor，其邮箱仍处于暂停状态：
 	// 已排队及之后经由旧引用到达的普通消息将永远滞留、不会进入死信。终止后恢复邮箱，使其排空为死信。
